@@ -97,6 +97,30 @@ Theorem C18_mvn_constructors_agree : forall n pen var rk lp rk' lp' c,
 Proof. exact mvn_constructors_agree. Qed.
 Print Assumptions C18_mvn_constructors_agree.
 
+(* the from_penalty family takes rank and log-pdet from the PENALTY: agreement and the range-space Gaussian hold for
+   every var > 0 with hypotheses on pen alone (only the plain constructor needs the gap on pen / var) *)
+Theorem C18_mvn_from_penalty_family_agree : forall n pen var rk lp rk' lp' c, 0 < var -> ascending n pen ->
+  rank_consistent tol_default n pen rk -> lpd_consistent tol_default n pen lp ->
+  rank_consistent tol_default n pen rk' -> lpd_consistent tol_default n pen lp' ->
+  logpdf (from_penalty n pen var rk lp) c = logpdf (from_penalty n pen var None None) c
+  /\ logpdf (from_penalty_smooth n pen (/ var) rk' lp') c = logpdf (from_penalty n pen var None None) c.
+Proof. exact mvn_from_penalty_family_agree. Qed.
+Print Assumptions C18_mvn_from_penalty_family_agree.
+
+Theorem C18_mvn_from_penalty_range_gaussian : forall n pen var rk lp c,
+  0 < var -> ascending n pen -> gap tol_default n pen ->
+  rank_consistent tol_default n pen rk -> lpd_consistent tol_default n pen lp ->
+  logpdf (from_penalty n pen var rk lp) c = range_gaussian_logpdf n (fun i => pen i / var) c.
+Proof. exact mvn_from_penalty_range_gaussian. Qed.
+Print Assumptions C18_mvn_from_penalty_range_gaussian.
+
+Example C18_mvn_from_penalty_large_var_example : forall c,
+  logpdf (from_penalty 3 ex_pen 10000000 None None) c
+  = range_gaussian_logpdf 3 (fun i => ex_pen i / 10000000) c
+  /\ logpdf (from_penalty_smooth 3 ex_pen (/ 10000000) None None) c
+     = logpdf (from_penalty 3 ex_pen 10000000 None None) c.
+Proof. exact mvn_from_penalty_large_var_example. Qed.
+
 Theorem C18_mvn_smooth_is_inverse_variance : forall n pen s rk lp c, 0 < s ->
   logpdf (from_penalty_smooth n pen s rk lp) c = logpdf (from_penalty n pen (/ s) rk lp) c.
 Proof. exact mvn_from_penalty_smooth_agrees. Qed.
@@ -142,7 +166,6 @@ Theorem C18_mvn_range_gaussian_needs_gap :
   exists n lam c, ascending n lam /\ (forall i, (i < n)%nat -> 0 < lam i) /\
     logpdf (ctor_prec n lam None None tol_default) c <> range_gaussian_logpdf n lam c.
 Proof. exact mvn_range_gaussian_needs_gap. Qed.
-Print Assumptions C18_mvn_range_gaussian_needs_gap.
 
 Theorem C18_mvn_constructors_agree_needs_gap :
   exists n pen var c, 0 < var /\ ascending n pen /\ gap tol_default n pen /\
